@@ -272,13 +272,18 @@ class StringsProof(Contract):
             for s in (True, False):
                 for f in sorted({0, n // 2, n}):
                     yield dict(signed=s, n_word=n, n_frac=f)
+        # 1-d arrays (two symbolic codes): every element rendered / parsed by its own digits
+        for n in ((3, 8, 16) if tier == 'quick' else (2, 3, 4, 8, 12, 16, 24)):       # paths grow as (n_word + 1)^2 for two elements
+            for s in (True, False):
+                for f in sorted({0, n // 2}):
+                    yield dict(signed=s, n_word=n, n_frac=f, shape=[2])
 
     def inputs(self, cfg, D):
-        return {'c': codes_in(D, 'c', 1, cfg['signed'], cfg['n_word'])}
+        return {'c': codes_in(D, 'c', nelem(cfg.get('shape', [])), cfg['signed'], cfg['n_word'])}
 
     def run(self, cfg, P, inp):
         s, n, f = cfg['signed'], cfg['n_word'], cfg['n_frac']
-        x = make_fxp(P, s, n, f, codes=inp['c'], shape=(), vdtype=float)
+        x = make_fxp(P, s, n, f, codes=inp['c'], shape=tuple(cfg.get('shape', ())), vdtype=float)
         o = {'bin': x.bin(), 'bin_dot': x.bin(frac_dot=True), 'bin_pref': x.bin(prefix='0b'), 'hex': x.hex()}
         o['raw_bin'] = P.Fxp(o['bin_pref'], s, n, f, raw=True).val
         o['raw_hex'] = P.Fxp(o['hex'], s, n, f, raw=True).val
@@ -293,6 +298,25 @@ class StringsProof(Contract):
         if obs['exc']:
             return {}
         s, n, f = cfg['signed'], cfg['n_word'], cfg['n_frac']
+        if cfg.get('shape'):
+            # arrays: bin()/hex() return one string per element, parsing a list of strings restores every code
+            k = len(inp['c'])
+            lists_ok = all(isinstance(obs[key], list) and len(obs[key]) == k for key in ('bin', 'bin_dot', 'bin_pref', 'hex'))
+            out = {'render_shape': lists_ok}
+            if not lists_ok:
+                return out
+            def every(fn):
+                return And(*[fn(i, inp['c'][i]) for i in range(k)])
+            out['render_bin'] = every(lambda i, c: _same_string(obs['bin'][i], _sym_bits(c, n)))
+            out['render_bin_dot'] = every(lambda i, c: _same_string(obs['bin_dot'][i], _with_point(_sym_bits(c, n), n, f)))
+            out['render_bin_prefix'] = every(lambda i, c: _same_string(obs['bin_pref'][i], ['0', 'b'] + _sym_bits(c, n)))
+            out['render_hex'] = every(lambda i, c: _same_string(obs['hex'][i], ['0', 'x'] + _sym_hex(c, n)))
+            for key, cl in (('raw_bin', 'parse_raw_bin'), ('raw_hex', 'parse_raw_hex'), ('from_bin', 'parse_from_bin'),
+                            ('val_bin', 'parse_value_bin'), ('val_hex', 'parse_value_hex')):
+                if key in obs:
+                    got = elems(obs[key])
+                    out[cl] = And(len(got) == k, *[eq(M(g), M(c)) for g, c in zip(got, inp['c'])]) if len(got) == k else False
+            return out
         c = inp['c'][0]
         bits = _sym_bits(c, n)
         out = {'render_bin': _same_string(obs['bin'], bits),
